@@ -1288,16 +1288,16 @@ NOTE_COMMON = ("Trusted: TLC + CommunityModules overrides; the harness's project
                "exhaustive checks to 64 bits; bounded case families (Cases.tla) - values outside the boundary sets "
                "and programs outside the enumerated shapes are not explored.")
 MANIFEST_TEXT = {
-    "C01": {"technique": "TLA+ machine (Machine.tla) model-checked with TLC; TLC-generated cases replayed on the interpreter",
+    "C01": {"technique": "TLA+ machine (Machine.tla) model-checked with TLC; TLC-generated cases replayed on the interpreter; recorded interpreter runs (random programs and /repo's own test suite) validated step by step by TLC (trace validation)",
             "text": "TLC exhaustively explores the bounded case families of the specification (every opcode x boundary operands x register pairs, long-distance branches) with design invariants on, and proves the limb ALU equal to the ISA's mathematics on all 8-bit operand pairs; every generated behaviour is replayed on the real interpreter and must reproduce value and memory. Bounded, hence model checking rather than proof.",
             "note": NOTE_COMMON},
     "C02": {"technique": "TLA+ Allowed predicate model-checked over boundary positions; cases replayed on the interpreter in guard-paged buffers",
             "text": "Every access kind/width at every position within 9 bytes of each end of each region (and null / wrap-around addresses) is decided by Machine!Allowed in TLC and replayed on the interpreter with buffers mapped at the specification's addresses between unmapped pages; a refused access must leave memory unchanged, an in-bounds one must be performed.",
             "note": NOTE_COMMON},
-    "C03": {"technique": "translation validation of x86-64 JIT against the interpreter on TLC-generated programs, adjudicated by the TLA+ machine",
+    "C03": {"technique": "translation validation of x86-64 JIT against the interpreter on TLC-generated programs, adjudicated by the TLA+ machine; compiled runs of /repo's own tests validated by TLC with silent machine steps",
             "text": "Each TLC-generated program is run on the interpreter and on the JIT-compiled code; results and memory are compared and every disagreement is adjudicated by the specification's outcome. Programs, not the code generator, are validated.",
             "note": NOTE_COMMON + " The JIT is only run on cases the specification judges defined and error-free (it performs no run-time checks by design)."},
-    "C04": {"technique": "translation validation of Cranelift-compiled code against the interpreter on TLC-generated programs, adjudicated by the TLA+ machine",
+    "C04": {"technique": "translation validation of Cranelift-compiled code against the interpreter on TLC-generated programs, adjudicated by the TLA+ machine; compiled runs of /repo's own tests validated by TLC with silent machine steps",
             "text": "As C03 for the Cranelift backend, plus refusal of eBPF-to-eBPF calls at compile time.",
             "note": NOTE_COMMON},
     "C11": {"technique": "TLA+ Allowed predicate model-checked; each case run on Cranelift code in a forked child (value vs SIGILL trap)",
@@ -1319,12 +1319,12 @@ MANIFEST_TEXT.update({
     "C05": {"technique": "TLC over all small programs under a control-flow abstraction of the TLA+ machine (refinement-checked); programs replayed on real verifier + interpreter",
             "text": "Exhaustive: every program up to the length bound over the template alphabet, every path the abstraction allows (which covers all inputs), invariant accepted => not stuck, with a negative control (the pinned commit's rule fails) and a refinement check tying the abstraction to the full machine. Each program is then loaded and run on the real code, which must return Ok/Err.",
             "note": NOTE_COMMON + " Programs longer than the bound are covered only by the random accepted-program traces."},
-    "C06": {"technique": "TLA+ WellFormed predicate evaluated by TLC on rule-boundary byte strings; verdicts replayed through every loading entry point",
+    "C06": {"technique": "TLA+ WellFormed predicate evaluated by TLC on rule-boundary byte strings; verdicts replayed through every loading entry point; verdicts recorded while /repo's own tests run validated by TLC",
             "text": "Each enumerated byte string gets its verdict from the named rules of Verifier.tla (rule independence checked: every rule is the sole reason of some refusal); the real verifier must return the same verdict through new() and set_program() of all four VM kinds, as an error value.",
             "note": NOTE_COMMON},
 })
 MANIFEST_TEXT.update({
-    "C10": {"technique": "finite-state TLA+ life-cycle model explored completely by TLC; recorded API histories validated against it by TLC (trace validation)",
+    "C10": {"technique": "finite-state TLA+ life-cycle model explored completely by TLC; a transition cover of its state graph walked on real VM objects and random API histories, both validated against it by TLC (trace validation)",
             "text": "The abstract VM state is finite, so TLC covers every history of the design, not a bounded sample; the real VM objects are bound to it by validating thousands of random call histories (arguments and results) of each VM kind against the specification, which tracks every state consistent with the observations where the statement leaves the mechanism open.",
             "note": NOTE_COMMON + " The default verifier cannot be re-installed through the public API, so set_verifier(default) is not exercised."},
 })
